@@ -5,7 +5,7 @@ from .common import BUILD, REPO, NCPU, flock, run, log
 SOUFFLE_DIR = os.path.join(BUILD, "souffle")
 SOUFFLE = os.path.join(SOUFFLE_DIR, "src", "souffle")
 SOUFFLEPROF = os.path.join(SOUFFLE_DIR, "src", "souffleprof")
-CCACHE_DIR = os.path.join(BUILD, "ccache")
+CCACHE_DIR = os.path.join(os.path.dirname(os.path.dirname(os.path.abspath(__file__))), "build", "ccache")
 GUARD = "SOUFFLE_VERIF"
 CXXFLAGS = "-D%s -Wno-error" % GUARD
 
